@@ -156,6 +156,15 @@ def hist_cache_control(W, ops, prng):
                 cc.update({k: v})
             hist.append(("item", k, v))
             model[k] = str(v)
+        elif op == "refused_then_repaired":
+            # a value the header store refuses (a line break); the application catches that and writes a good value
+            try:
+                cc["x-ext"] = "a\nb"
+            except ValueError:
+                pass
+            cc["x-ext"] = "ok"
+            model["x-ext"] = "ok"
+            hist.append("refused_then_repaired")
         elif op == "delitem":
             k = prng.choice(["max-age", "x-ext", "no-cache"])
             if k in cc:
@@ -229,7 +238,7 @@ def hist_cache_control(W, ops, prng):
     return hist
 
 
-CC_OPS = ["b", "i", "s", "del", "item", "item_number", "item_number", "delitem", "pop", "popitem", "clear", "update", "setdefault", "direct", "reget", "assign_none"]
+CC_OPS = ["b", "i", "s", "del", "item", "item_number", "item_number", "refused_then_repaired", "delitem", "pop", "popitem", "clear", "update", "setdefault", "direct", "reget", "assign_none"]
 
 
 def hist_header_set(W, ops, prng):
@@ -378,6 +387,23 @@ def hist_www(W, ops, prng):
             r.www_authenticate = a_
             w = r.www_authenticate
             model = ("digest", None, {"realm": "two", "nonce": "n"})
+        elif op == "moved_to_this_response":
+            # a challenge that is live on another response is assigned here and edited afterwards: this response shows the edit
+            r_old = W["Response"]()
+            obj = WWWAuthenticate("digest", {"realm": "shared", "nonce": "n"})
+            how_ = prng.choice(["assigned", "read-back"])
+            r_old.www_authenticate = obj
+            if how_ == "read-back":
+                obj = r_old.www_authenticate
+            r.www_authenticate = obj
+            obj["realm"] = "edited-after-the-move"
+            obj.parameters["nonce"] = "n2"
+            w = obj
+            model = ("digest", None, {"realm": "edited-after-the-move", "nonce": "n2"})
+            hdr_now = r.headers.get("WWW-Authenticate")
+            indep = WWWAuthenticate(model[0], dict(model[2])).to_header()
+            if hdr_now != indep:
+                raise Drift("C16/www_authenticate:header-differs-from-assigned-challenge", f"{hist!r}: a challenge that was live on another response ({how_}) was assigned here and then edited; this response's header {hdr_now!r}, the challenge reads {indep!r}")
         elif op == "delete":
             del r.www_authenticate
             w = None
@@ -398,6 +424,13 @@ def hist_www(W, ops, prng):
                 rv = prng.choice(["x y", "x y", "", 'q"r', "a,b"])
                 w["realm"] = rv
                 pr["realm"] = rv
+            elif op == "refused_then_repaired":
+                try:
+                    w["realm"] = "a\nb"
+                except ValueError:
+                    pass
+                w["realm"] = "ok"
+                pr["realm"] = "ok"
             elif op == "set_param_attr":
                 w.qop = "auth"
                 pr["qop"] = "auth"
@@ -467,7 +500,7 @@ def hist_www(W, ops, prng):
 
 
 WWW_OPS = ["assign", "assign_token", "set_param_item", "set_param_attr", "del_param", "del_attr", "set_type", "set_type_case", "set_token", "set_params", "none_item", "delete", "direct", "reget",
-           "params_dict_set", "params_pop", "set_params_from_other_view", "assign_prepared", "assign_list_again"]
+           "params_dict_set", "params_pop", "set_params_from_other_view", "assign_prepared", "assign_list_again", "refused_then_repaired", "moved_to_this_response"]
 
 
 def hist_csp(W, ops, prng):
@@ -491,6 +524,13 @@ def hist_csp(W, ops, prng):
         elif op == "item":
             csp["img-src"] = "a b"
             m["img-src"] = "a b"
+        elif op == "refused_then_repaired":
+            try:
+                csp["img-src"] = "a\nb"
+            except ValueError:
+                pass
+            csp["img-src"] = "ok"
+            m["img-src"] = "ok"
         elif op == "del":
             if "img-src" in csp:
                 del csp["img-src"]
@@ -523,7 +563,7 @@ def hist_csp(W, ops, prng):
     return hist
 
 
-CSP_OPS = ["attr", "attr_none", "attr2", "item", "del", "clear", "assign_str", "assign_none", "direct"]
+CSP_OPS = ["attr", "attr_none", "attr2", "item", "refused_then_repaired", "del", "clear", "assign_str", "assign_none", "direct"]
 
 
 def hist_content_range(W, ops, prng):
@@ -647,6 +687,13 @@ def hist_mimetype_params(W, ops, prng):
             tv = prng.choice(["urn:ietf:x", "host:8080", "a/b", "u@h", "a=b", "x;y", "1,2", "[v]", "a?b", "{}", "sp ace"])
             mp["start-info"] = tv
             m["start-info"] = tv
+        elif op == "refused_then_repaired":
+            try:
+                mp["q"] = "a\nb"
+            except ValueError:
+                pass
+            mp["q"] = "ok"
+            m["q"] = "ok"
         elif op == "set_number":
             k = prng.choice(["version", "level", "q"])
             v = prng.choice([1, True, 1.0, 0, False, 0.0, 2, 2.5])
@@ -700,7 +747,7 @@ def hist_mimetype_params(W, ops, prng):
     return hist
 
 
-MP_OPS = ["set", "set_weird", "set_tokenish", "set_tokenish", "set_number", "set_number", "del", "pop", "update", "clear", "mimetype", "direct", "mimetype_keep_view", "content_type_keep_view"]
+MP_OPS = ["set", "set_weird", "set_tokenish", "set_tokenish", "set_number", "set_number", "refused_then_repaired", "del", "pop", "update", "clear", "mimetype", "direct", "mimetype_keep_view", "content_type_keep_view"]
 
 VIEW_TABLE = {
     "cache_control": (hist_cache_control, CC_OPS),
